@@ -1005,7 +1005,7 @@ static int record_ret_stack(struct mcount_thread_data *mtdp, enum uftrace_record
 	 */
 	rec = type | RECORD_MAGIC << 3;
 	rec += argbuf ? 4 : 0;
-	rec += mrstack->depth << 6;
+	rec += (mrstack->depth & 0x3ff) << 6;
 	rec += (uint64_t)mrstack->child_ip << 16;
 
 	buf = (void *)(curr_buf->data + curr_buf->size);
